@@ -263,6 +263,9 @@ def leg(ctx, rng, tmp, observe, what, families, which=None, n_per_family=1, prim
                         d.ds = d.ds.assign_coords({nm: new}) if nm in d.ds.coords else d.ds.assign({nm: new})
                         sp[key] = [float(v) for v in ints]
                     sp['label'] += ' integer coordinates'
+            elif fam == 'cf2d_river':
+                # a curvilinear grid without stored bounds around one-cell-wide channels (cells hemmed in by missing cells)
+                d = gen.cf2d(rng, ny=5, nx=4, holes=rng.choice(['river', 'river_i']), bounds=False, invalid=False)
             elif fam == 'ugrid_quads1':
                 # all quadrilaterals, numbered from one, integer tables that need no padding (so none is declared): the arrays the
                 # convention works on can be the dataset's own
@@ -407,8 +410,10 @@ def battery(ds):
             pass
     with warnings.catch_warnings():
         warnings.simplefilter('ignore')
-        for kind in e.grid_kinds:
-            for k in (0, 1, int(e.grid_size[kind]) - 1):
+        default = getattr(e, 'default_grid_kind', None)
+        # (the default kind first, the other kinds after it, in a fixed order: grid_kinds is a set)
+        for kind in sorted(e.grid_kinds, key=lambda k_: (k_ != default, str(k_))):
+            for k in sorted(set(range(min(int(e.grid_size[kind]), 12))) | {int(e.grid_size[kind]) - 1}):
                 try:
                     e.ravel_index(e.wind_index(k, grid_kind=kind))
                 except Exception:       # noqa: BLE001
@@ -817,7 +822,7 @@ RUNS = {
     'C01': (obs_index, 'index conversion', gen.FAMILIES + ['ugrid_edges'], None, ('lazy', 'raw', 'view_of_file', 'big_endian', 'narrow_tables')),
     'C02': (obs_geometry, 'polygons, centres, lookups and spatial index', gen.FAMILIES + ['cf1d_int', 'ugrid_quads1'], with_data, ('lazy', 'raw', 'view_of_file', 'big_endian', 'transposed_view', 'mixed_precision')),
     'C03': (obs_flatten, 'flatten and wind', gen.FAMILIES, with_data, None),
-    'C04': (obs_geometry, 'polygons and point lookups', gen.FAMILIES + ['cf1d_desc', 'ugrid_quads1'], None, ('lazy', 'raw', 'view_of_file', 'big_endian', 'mixed_precision')),
+    'C04': (obs_geometry, 'polygons and point lookups', gen.FAMILIES + ['cf1d_desc', 'ugrid_quads1', 'cf2d_river'], None, ('lazy', 'raw', 'view_of_file', 'big_endian', 'mixed_precision')),
     'C05': (obs_select, 'point selection', gen.FAMILIES + ['ugrid_quads1'], with_data, None),
     'C06': (obs_geometry, 'polygons, bounds and mask', gen.FAMILIES + ['cf1d_desc', 'cf1d_int', 'cf1d_bounds', 'ugrid_quads1'], None, ('lazy', 'raw', 'view_of_file', 'big_endian', 'mixed_precision', 'raw_unsigned')),
     'C07': (obs_clip_mask, 'clip masks', gen.FAMILIES, None, ('lazy', 'raw', 'view_of_file', 'big_endian')),
